@@ -2,10 +2,10 @@ package main
 
 import (
 	"fmt"
-	"strconv"
 	"go/constant"
 	"go/token"
 	"go/types"
+	"strconv"
 	"strings"
 	"sync"
 	"time"
@@ -131,51 +131,51 @@ type Exec struct {
 	q   *Queue
 
 	// per path
-	prefix   []uint16
-	nd       int
-	pc       []*Term
-	vars     []varInfo
-	nsym     int
-	instrs   int64
-	fuel     int64
-	dom      map[int]*byteset
-	taint    map[int]bool
-	globals  map[*ssa.Global]*Val
-	stack    []*fnInfo
-	notes    []noteRec
-	covers   []string
-	mapNondet bool
-	registry map[string]Closure
-	regOrder []string
-	opaqueN  uint64
-	harness  string
-	deadline time.Time
-	viol     []*Violation
-	forks    int64
-	depth    int
-	frozen   map[*MapObj]bool
-	builders int
-	known    map[string]bool
-	ropeLens map[string]Str
+	prefix        []uint16
+	nd            int
+	pc            []*Term
+	vars          []varInfo
+	nsym          int
+	instrs        int64
+	fuel          int64
+	dom           map[int]*byteset
+	taint         map[int]bool
+	globals       map[*ssa.Global]*Val
+	stack         []*fnInfo
+	notes         []noteRec
+	covers        []string
+	mapNondet     bool
+	registry      map[string]Closure
+	regOrder      []string
+	opaqueN       uint64
+	harness       string
+	deadline      time.Time
+	viol          []*Violation
+	forks         int64
+	depth         int
+	frozen        map[*MapObj]bool
+	builders      int
+	known         map[string]bool
+	ropeLens      map[string]Str
 	curDeferFrame []*frame
-	locks       map[*Val]bool
-	frozenCells map[*Val]bool
-	curH        int
-	viols       *violSet
+	locks         map[*Val]bool
+	frozenCells   map[*Val]bool
+	curH          int
+	viols         *violSet
 }
 
 type frame struct {
-	fi      *fnInfo
-	regs    []Val
-	defers  []deferred
+	fi        *fnInfo
+	regs      []Val
+	defers    []deferred
 	recovered bool
 	panicking *goPanic
 }
 
 type deferred struct {
-	cl   Closure
-	fn   *ssa.Function
-	args []Val
+	cl      Closure
+	fn      *ssa.Function
+	args    []Val
 	builtin string
 }
 
